@@ -112,7 +112,11 @@ def kidsTotal : PKids Q → Bool
   | .cons (some t) r => isTotal t && kidsTotal r
 end
 
-def shift (p : Aff Q) (d : Q) : Aff Q := { p with bias := p.bias.map (· + d) }
+/-- move every face by `d` in *geometric* terms: a row `a·x ≤ b` is moved by `d·max(1, ‖a‖₁)` (the 1-norm bounds the
+    Euclidean norm from above, so "shrunk by the margin" means at least that much Euclidean room and "grown by the
+    margin" at least that much Euclidean slack — a margin in raw residuals would be meaningless for rows of large norm) -/
+def shift (p : Aff Q) (d : Q) : Aff Q :=
+  { p with bias := (p.mat.zip p.bias).map (fun (a, b) => b + d * max 1 (a.foldl (fun s v => s + absQ v) 0)) }
 
 def margin : Q := mkRat 1 1000000
 
@@ -335,7 +339,7 @@ def nearBreakpoint (consts : NetConsts Q) (layers : List (Layer Q)) (x : List Q)
     netMargin consts layers x 1 ≤ mkRat 1 1000000000
 
 def judgeHist : P Verdict := do
-  let _tag ← tok
+  let htag ← tok
   let tol ← pNum
   -- constructor description (only recorded as a tag)
   let ctor ← tok
@@ -385,7 +389,8 @@ def judgeHist : P Verdict := do
       match model with
       | none => tag "expected-panic"; return (if inexact then .inexact "values" else .ok)
       | some _ =>
-        return .propfail s!"[{if nfaults > 0 then "C11" else "C04"}] step {step} ({opname}) panicked on dimension-compatible arguments"
+        -- in a distillation history (tag C01) the step is a step of the builder: the builder panics on this network
+        return .propfail s!"[{if nfaults > 0 then "C11" else if htag == "C01" then "C01" else "C04"}] step {step} ({opname}) panicked on dimension-compatible arguments{if htag == "C01" then " (a step of afftree_from_layers on a dimension-consistent network)" else ""}"
     let td' ← pTree
     let log ← pLog
     let trace ← pTrace
@@ -431,7 +436,11 @@ def judgeHist : P Verdict := do
     for e in log do
       if e.real == .infeasible then
         if let some x := pointInShrunk e.poly.indim [e.poly] then
-          return .propfail s!"[C10] step {step} ({opname}): the solver reported Infeasible for a polytope containing {showVec x} with margin 1e-6"
+          let mags := (e.poly.mat.flatMap id).filter (· != 0) |>.map absQ
+          let hi := mags.foldl max 0
+          let lo := mags.foldl min hi
+          let ill := lo > 0 && hi / lo ≥ (2 : Q) ^ 20
+          return .propfail s!"[C10] step {step} ({opname}): the solver reported Infeasible for a polytope containing {showVec x} with margin 1e-6{if ill then " (ill-scaled system: coefficient magnitudes differ by a factor ≥ 2^20)" else ""}"
     -- effectiveness and idempotence of the clean-ups
     match op with
     | .elim =>
@@ -440,14 +449,15 @@ def judgeHist : P Verdict := do
           return .propfail s!"[C06] step {step} (elim): {msg}"
       if let some (same, lps, calls) := idem then
         if !everFaulted && same != 1 then return .propfail s!"[C06] step {step}: a second infeasible_elimination changed the tree"
-        if !everFaulted && isTotal t && (lps != 0 || calls != 0) then
-          return .propfail s!"[C06] step {step}: a second infeasible_elimination solved {lps} LPs ({calls} solver calls)"
+        -- LPs solved by the second run change nothing observable; they show that some node stayed undecided
+        -- (`Decisive` fails: the solver's point did not pass `contains` and could not be repaired)
+        if !everFaulted && isTotal t && (lps != 0 || calls != 0) then tag "second-run-lps"
       if let some b := base then
         if t'.size < b then
           let showAns : LPAnswer Q → String := fun a => match a with
             | .infeasible => "I" | .unbounded => "U" | .error => "E" | .optimal x => s!"O{showVec x}"
           let logS := log.map (fun e => s!"[{e.poly.mat.map showVec}|{showVec e.poly.bias} real={showAns e.real} ret={showAns e.ret}]")
-          return .propfail s!"[C11] step {step}: with solver faults the tree has {t'.size} nodes, fewer than the fault-free result {b}{if isTotal t then "" else " (partial tree: the fault-free run keeps an infeasible only-child sub-tree whole)"} BEFORE {showTree t} AFTER {showTree t'} LOG {logS} TRACE {trace.map (fun e => s!"{e.1}:{showState e.2}")}"
+          return .propfail s!"[C11] step {step}: with solver faults the tree has {t'.size} nodes, fewer than the fault-free result {b}{if !isTotal t then " (partial tree: the fault-free run keeps an infeasible only-child sub-tree whole)" else if log.any (fun e => e.real == .infeasible && e.ret != .infeasible) then " (a fault masked an Infeasible verdict: the fault-free run keeps that node whole as the last child of its decision, the faulted run descends into it)" else ""} BEFORE {showTree t} AFTER {showTree t'} LOG {logS} TRACE {trace.map (fun e => s!"{e.1}:{showState e.2}")}"
     | .reduce =>
       if t'.size < t.size then tag "merged"
       if inverted t then tag "inverted"
